@@ -179,6 +179,7 @@ def Eff.slice : Eff → Option (Nat × Flav × Name)
   | .assign s _ n f _ => some (s, f, n)
   | .unassign s _ n f => some (s, f, n)
   | .rmTree _ => none
+  | .copyExtra _ => none
 
 /-- **Commutation.**  If the in-memory stacks `m` agree with the database `db` on a slice, and on the slice
 the effect works in, then after the write-through of the effect they agree with the database after the effect
@@ -196,6 +197,7 @@ theorem commute (e : Eff) (m db : Spec) (hdb : NoDangling db) (s : Nat) (f : Fla
   | assign s' t n' f' v => exact h.assign s' t n' f' v ((hown s' f' n' rfl).hasDecl v)
   | unassign s' t n' f' => exact h.delTag s' t n' f'
   | rmTree _ => exact h
+  | copyExtra _ => exact h
 
 /-- The pinned write-through does not commute: a tag survives, in the in-memory stack, the removal of its
 version (D1). -/
